@@ -179,6 +179,9 @@ DurRead == Is("durread")
            /\ UNCHANGED <<cur, hs, base, wents, ver>>
 (* a clean close + reopen must preserve the state exactly (C47) *)
 Ratchet == Is("ratchet") /\ (Chk("crash40") => (Ev.ok /\ Ev.got = Ev.to /\ Ev.lowerrefused)) /\ UNCHANGED <<cur, hs, cv>>
+(* a ratchet that FAILED (an injected I/O error): the version in force never goes down and never   *)
+(* beyond the target; the retry that follows is an ordinary Ratchet event                           *)
+RatchetFail == Is("ratchetfail") /\ (Chk("crash40") => (Ev.got >= Ev.from /\ Ev.got <= Ev.to)) /\ UNCHANGED <<cur, hs, cv>>
 CleanReopen == Is("cleanreopen") /\ (Chk("reopen") => (Ev.ok /\ StOf(Ev.state) = cur))
                /\ (Chk("crash40") => (Ev.ok /\ StOf(Ev.state) = cur /\ Ev.fmv >= Ev.fmvlo))
                /\ base' = cur /\ wents' = <<>> /\ hs' = <<>> /\ durn' = 0 /\ UNCHANGED <<cur, ver>>
@@ -244,7 +247,7 @@ Note == Is("note") /\ UNCHANGED <<cur, hs, cv>>
 TraceNext == \/ Reset \/ Commit \/ Ingest \/ IngestExcise \/ Excise \/ BatchCommit \/ DurablePoint \/ SyncWait \/ Maint
              \/ Snap \/ Efos \/ BatchNew \/ BatchOp \/ Close \/ Get \/ Scan \/ RScan \/ FGet \/ FScan
              \/ NewIter \/ IterOp \/ IterLimOp \/ SetBounds \/ SetOpts \/ CloneIt
-             \/ CrashProbe \/ Reopen \/ DurRead \/ Lsm \/ Pin \/ Unpin \/ Removed \/ DirList \/ CleanReopen \/ CloseDB \/ Checkpoint \/ ScanInt \/ Ratchet \/ Note
+             \/ CrashProbe \/ Reopen \/ DurRead \/ Lsm \/ Pin \/ Unpin \/ Removed \/ DirList \/ CleanReopen \/ CloseDB \/ Checkpoint \/ ScanInt \/ Ratchet \/ RatchetFail \/ Note
 TraceSpec == TraceInit /\ [][TraceNext]_vars
 
 (* acceptance: high-water mark of consumed lines *)
